@@ -427,6 +427,18 @@ func (s *levelsController) levelTargets() targets {
 		t.baseLevel++
 	}
 
+	// L0 compactions look for older versions of a key only below the base level
+	// (see checkOverlap in subcompact), so no level between L0 and the base level
+	// may hold data. The steps above can leave such a level behind (a non-empty
+	// size-based base level followed by an empty one, or a tree that shrank):
+	// move the base level back up to the first non-empty level.
+	for i := 1; i < t.baseLevel; i++ {
+		if s.levels[i].getTotalSize() > 0 {
+			t.baseLevel = i
+			break
+		}
+	}
+
 	// The base level must never be L0. For a very large LSM tree the size loop
 	// above can fail to assign a base level: it only sets baseLevel where
 	// adjust(dbSize) <= BaseLevelSize, and the smallest level it checks (L1)
